@@ -46,6 +46,16 @@ class XlCircular(XlError):
 ERR_CIRCULAR = XlCircular('#CIRC!')
 
 
+def _is_formula_like(value):
+    # Text that `from_dict` would not read back as the same text constant.
+    if isinstance(value, str) and not isinstance(value, sh.Token):
+        from ..cell import Cell
+        return value.upper() == '#EMPTY' or bool(
+            Cell.parser.is_formula(value)
+        )
+    return False
+
+
 def _get_name(name, names):
     if name not in names:
         name = name.upper()
@@ -467,9 +477,7 @@ class ExcelModel:
             if not isinstance(k, sh.Token)
         }
         nodes = {
-            k: isinstance(v, str) and v.startswith('=') and '="%s"' % v.replace(
-                '"', '""'
-            ) or v
+            k: _is_formula_like(v) and '="%s"' % v.replace('"', '""') or v
             for k, v in nodes.items()
         }
         nodes = {
